@@ -122,8 +122,43 @@ fn enc_value(v: &StateValue, names: &Names) -> String {
             e.sort();
             format!("S[{}]", e.join(","))
         }
-        _ => "O".to_string(),
+        other => match foreign_tag(other) {
+            Some((t, true)) => format!("O{}", t),
+            Some((t, false)) => format!("O{}!changed", t),
+            None => "O".to_string(),
+        },
     }
+}
+/// the embedder-made values of the ten non-collection kinds (`__foreign:<tag>`)
+fn foreign_value(tag: usize) -> StateValue {
+    match tag {
+        0 => StateValue::Boolean(true),
+        1 => StateValue::Number(-7),
+        2 => StateValue::UnsignedNumber(7),
+        3 => StateValue::Number32Bit(-32),
+        4 => StateValue::UnsignedNumber32Bit(32),
+        5 => StateValue::Number64Bit(-64),
+        6 => StateValue::UnsignedNumber64Bit(64),
+        7 => StateValue::String("foreign".to_string()),
+        8 => StateValue::ByteArray(vec![1, 2, 3]),
+        _ => StateValue::Any(std::rc::Rc::new(std::cell::RefCell::new(9u8))),
+    }
+}
+/// (tag, value unchanged?) of a non-collection value
+fn foreign_tag(v: &StateValue) -> Option<(usize, bool)> {
+    Some(match v {
+        StateValue::Boolean(b) => (0, *b),
+        StateValue::Number(n) => (1, *n == -7),
+        StateValue::UnsignedNumber(n) => (2, *n == 7),
+        StateValue::Number32Bit(n) => (3, *n == -32),
+        StateValue::UnsignedNumber32Bit(n) => (4, *n == 32),
+        StateValue::Number64Bit(n) => (5, *n == -64),
+        StateValue::UnsignedNumber64Bit(n) => (6, *n == 64),
+        StateValue::String(x) => (7, x == "foreign"),
+        StateValue::ByteArray(b) => (8, b == &vec![1u8, 2, 3]),
+        StateValue::Any(a) => (9, a.borrow().downcast_ref::<u8>() == Some(&9u8)),
+        _ => return None,
+    })
 }
 fn cell_string(v: &StateValue) -> Option<String> {
     match v {
@@ -203,6 +238,20 @@ fn run_history(ops: &[Op]) -> String {
     let vars_before = ctx.variables.len();
     let mut expected_vars = vars_before;
     for (k, op) in ops.iter().enumerate() {
+        if op.cmd == "__foreign" {
+            // the embedder stores a non-collection value under a fresh handle key
+            let tag: usize = match op.args.get(0) { Some(Arg::Lit(t)) => t.parse().unwrap_or(0), _ => 0 };
+            let key = format!("handle:foreign{:013}", k);
+            if handles(&ctx).is_none() {
+                ctx.state.insert("handles".to_string(), StateValue::SubState(HashMap::new()));
+            }
+            handles_mut(&mut ctx).unwrap().insert(key.clone(), foreign_value(tag));
+            names.see(&key, &ctx);
+            outs.push(enc_str(&names.rename(&key)));
+            ctx.variables.insert(format!("o{}", k), key);
+            expected_vars += 1;
+            continue;
+        }
         let mut args = vec![];
         for (j, a) in op.args.iter().enumerate() {
             match a {
@@ -289,6 +338,8 @@ enum Kind {
     Arr,
     Map,
     Set,
+    /// embedder-made non-collection value (`__foreign`)
+    Foreign,
 }
 struct Track {
     op: usize,
@@ -392,6 +443,13 @@ impl<'a> Gen<'a> {
         let n_native = 27;
         let n = if self.with_scripts { n_native + 9 } else { n_native };
         let mut c = self.rng.below(n + 6);
+        if can_create && self.rng.chance(1, 30) {
+            let tag = self.rng.below(10);
+            let op = self.push("__foreign", vec![lit(&tag.to_string())]);
+            self.new_track(op, Kind::Foreign, 0);
+            self.tags.push("foreign-kind-handle");
+            return;
+        }
         // bias towards creation while few handles exist
         if self.live_count() < 2 && self.rng.chance(1, 2) {
             c = [0, 9, 16][self.rng.below(3)];
@@ -752,6 +810,32 @@ fn confusion_cases() -> Vec<Case> {
             }
             out.push(Case { req: enc_ops(&ops), in_domain: true, nontrivial: true, tags: vec!["command-x-kind"] });
         }
+        // every command on an embedder-made handle of each of the ten non-collection kinds
+        // (state.rs: one put-back arm per kind in each of mutate_list / mutate_map / mutate_set)
+        for tag in 0..10 {
+            let mut ops = vec![
+                Op { cmd: "array".into(), args: vec![lit("a"), lit("b")] },
+                Op { cmd: "__foreign".into(), args: vec![lit(&tag.to_string())] },
+            ];
+            let mut a = vec![Arg::Ref(1)];
+            a.extend(extra.iter().cloned());
+            ops.push(Op { cmd: c.to_string(), args: a.clone() });
+            // … and a second time (the first call must have put the value back)
+            ops.push(Op { cmd: c.to_string(), args: a });
+            out.push(Case { req: enc_ops(&ops), in_domain: true, nontrivial: true, tags: vec!["command-x-foreign-kind"] });
+        }
+    }
+    // recursive release of a foreign-kind handle, directly and below a collection
+    for tag in 0..10 {
+        let ops = vec![
+            Op { cmd: "__foreign".into(), args: vec![lit(&tag.to_string())] },
+            Op { cmd: "array".into(), args: vec![Arg::Ref(0), lit("x")] },
+            Op { cmd: "release".into(), args: vec![lit("-r"), Arg::Ref(1)] },
+            Op { cmd: "is_array".into(), args: vec![Arg::Ref(0)] },
+            Op { cmd: "__foreign".into(), args: vec![lit(&tag.to_string())] },
+            Op { cmd: "release".into(), args: vec![lit("-r"), Arg::Ref(4)] },
+        ];
+        out.push(Case { req: enc_ops(&ops), in_domain: true, nontrivial: true, tags: vec!["release-foreign-kind"] });
     }
     out
 }
